@@ -52,6 +52,8 @@ static bool g_execmem = true;
 static std::map<int, FdInfo> g_fds;
 struct MapInfo { size_t len; uint64_t fd_id; };
 static std::map<uintptr_t, MapInfo> g_maps;
+static std::set<uintptr_t> g_gone;   // start addresses handed out earlier and unmapped since
+static int g_double_munmaps = 0;
 static uint64_t g_fd_ids = 0;
 static std::vector<Fault> g_faults;
 static OpStats g_st;
@@ -63,7 +65,7 @@ static uint64_t g_flaky_fired = 0;
 void enable(bool on) { g_on = on; }
 bool enabled() { return g_on; }
 void reset() {
-  g_dirs.clear(); g_execmem = true; g_fds.clear(); g_maps.clear(); g_faults.clear();
+  g_dirs.clear(); g_execmem = true; g_fds.clear(); g_maps.clear(); g_faults.clear(); g_gone.clear(); g_double_munmaps = 0;
   g_st = OpStats(); g_name_counter = 0;
   for (int k = 0; k < K_NKINDS; k++) { g_flaky_period[k] = 0; g_flaky_count[k] = 0; }
   g_flaky_fired = 0;
@@ -82,6 +84,7 @@ int open_unmapped_fds() {
   return n;
 }
 int live_mappings() { return (int)g_maps.size(); }
+int double_munmaps() { return g_double_munmaps; }
 std::string open_fd_desc() {
   std::string s;
   for (auto &kv : g_fds) s += strf("%s%s", s.empty() ? "" : ",", kv.second.dir.c_str());
@@ -181,6 +184,7 @@ void *__wrap_mmap(void *addr, size_t len, int prot, int flags, int fd, off_t off
   void *p = __real_mmap(addr, len, prot, flags, fd, off);
   if (p == MAP_FAILED) { g_st.trace += strf("mmap(%s)=REALFAIL ", what); return p; }
   g_maps[(uintptr_t)p] = MapInfo{len, ours ? g_fds[fd].id : 0};
+  g_gone.erase((uintptr_t)p);
   if (ours) g_fds[fd].live_maps++;
   g_st.maps_created++;
   if (prot & PROT_EXEC) g_st.exec_maps_ok++;
@@ -194,6 +198,13 @@ int __wrap_munmap(void *addr, size_t len) {
     if (it != g_maps.end()) {
       for (auto &kv : g_fds) if (kv.second.id == it->second.fd_id && kv.second.live_maps > 0) kv.second.live_maps--;
       g_maps.erase(it); g_st.maps_removed++; g_st.trace += "munmap ";
+      g_gone.insert((uintptr_t)addr);
+    } else if (g_gone.count((uintptr_t)addr)) {
+      // a range this seam handed out and that was unmapped already: whatever lives there now (in a real
+      // process: another thread's mapping made in between) is not the caller's to unmap.  Counted, not executed.
+      g_double_munmaps++;
+      g_st.trace += "munmap(again!) ";
+      return 0;
     }
   }
   return __real_munmap(addr, len);
